@@ -113,7 +113,7 @@ PROP_RE = re.compile(r'^\[(?P<name>[^\]]+)\] (?P<desc>.*): (?P<res>SUCCESS|FAILU
 
 def run_cbmc(cfiles, unwind, timeout, mem_gb=12, checks=True, trace_property=None, extra=(), wd=None, defs=None):
     cmd = ['cbmc'] + list(cfiles) + ['-I' + RT, '--unwind', str(unwind), '--unwinding-assertions',
-                                    '--no-malloc-may-fail', '--drop-unused-functions', '--object-bits', '12', '--slice-formula']
+                                    '--no-malloc-may-fail', '--drop-unused-functions', '--object-bits', '12', '--slice-formula', '--unwindset', 'vf_streq.0:50']
     if not checks:
         cmd.append('--no-standard-checks')
     else:
